@@ -401,6 +401,15 @@ def extract_model(eng, c, case, m):
             ghost[nm] = model_value(m, d())
     if ghost:
         vals['@ghost'] = ghost
+    # identity of the current time thread: is it the main thread in this model?
+    mf = c.fields.get('Main', {})
+    if str(mf.get('current_tt', '')).startswith('aref:') and str(mf.get('main_tt', '')).startswith('aref:'):
+        try:
+            a = z3.Const('main.current_tt#id', VV.Any)
+            b = z3.Const('main.main_tt#id', VV.Any)
+            vals['@current_is_main_tt'] = bool(z3.is_true(m.eval(a == b, model_completion=True)))
+        except Exception:
+            pass
     if 'TimeThread' in c.fields:
         fv = {}
         for f, kind in c.fields['TimeThread'].items():
@@ -541,8 +550,25 @@ def native_check(c, case, model, clause_names):
             else:
                 return 'no-replay', 'parameter %s of kind %s' % (pname, kind)
         tt_pre = {}
+        restore_tt = None
         if needs_main:
             from sc3.base import main as _m
+            if model.get('@current_is_main_tt') is False:
+                # the counter-model runs inside a routine: a time thread other than the main one
+                try:
+                    from sc3.base import stream as _stm
+                    other = _stm.TimeThread.__new__(_stm.TimeThread)
+                    other._m_seconds = 0.0
+                    other.parent = None
+                    other._clock = getattr(_m.main.main_tt, '_clock', None)
+                    other._rgen = getattr(_m.main.main_tt, '_rgen', None)
+                    restore_tt = _m.main.current_tt
+                    _m.main.current_tt = other
+                except Exception:
+                    return 'no-replay', 'cannot build a time thread other than the main one'
+            elif model.get('@current_is_main_tt') is True and _m.main.current_tt is not _m.main.main_tt:
+                restore_tt = _m.main.current_tt
+                _m.main.current_tt = _m.main.main_tt
             tt = _m.main.current_tt
             for f, fv in (model.get('@main.current_tt') or {}).items():
                 tt_pre[f] = fv
@@ -577,6 +603,8 @@ def native_check(c, case, model, clause_names):
         except Exception as e:
             exc = e
         finally:
+            if restore_tt is not None:
+                _m.main.current_tt = restore_tt
             cls_post = {}
             for cname in cls_pre:
                 cm = importlib.import_module(c.class_modules[cname][:-3].replace('/', '.'))
@@ -661,6 +689,11 @@ def native_check(c, case, model, clause_names):
         if isinstance(exc, AttributeError) and 'has no attribute' in str(exc):
             return 'no-replay', 'replay object incomplete: %r' % (exc,)
         failed = []
+        # facts of the counter-model that the concrete state does not carry by itself
+        facts = []
+        if model.get('@current_is_main_tt') is not None:
+            eq = z3.Const('main.current_tt#id', VV.Any) == z3.Const('main.main_tt#id', VV.Any)
+            facts.append(eq if model['@current_is_main_tt'] else z3.Not(eq))
         for name, cl in c.ensures:
             if 'ensures[%s]' % name not in clause_names:
                 continue
@@ -677,6 +710,7 @@ def native_check(c, case, model, clause_names):
             s = z3.Solver()
             s.set('timeout', 5000)
             s.add(f)
+            s.add(*facts)
             if s.check() == z3.unsat:
                 failed.append('ensures[%s]' % name)
         if 'no-unexpected-exception' in clause_names and exc is not None:
@@ -687,12 +721,14 @@ def native_check(c, case, model, clause_names):
             if 'raises-iff[%s]' % ecls in clause_names and exc is None and cond is not None:
                 s = z3.Solver()
                 s.add(cond(ctx))
+                s.add(*facts)
                 if s.check() == z3.sat:
                     failed.append('raises-iff[%s]' % ecls)
             if 'raises-only-if[%s]' % ecls in clause_names and exc is not None \
                     and type(exc).__name__ == ecls and cond is not None:
                 s = z3.Solver()
                 s.add(cond(ctx))
+                s.add(*facts)
                 if s.check() == z3.unsat:
                     failed.append('raises-only-if[%s]' % ecls)
         detail['failed_clauses'] = failed
